@@ -109,6 +109,32 @@ func genC09(r *Rng, e *Emitter, n int) {
 		emit("mpg", geom.NewMultiPolygonFlat(l, flat, [][]int{{len(ring)}, {len(flat)}}), sxIntss([][]int{{len(ring)}, {len(flat)}}))
 		e.tally("big")
 	}
+	// lines whose segments are almost, but not quite, parallel to an axis (slopes 10^-8 … 10^-5)
+	for i := 0; i < n/50+6; i++ {
+		l := layouts[r.Intn(len(layouts))]
+		s := l.Stride()
+		k := 2 + r.Intn(4)
+		f := make([]float64, 0, k*s)
+		x, y := float64(r.Intn(1000)), float64(r.Intn(1000))
+		for j := 0; j < k; j++ {
+			f = append(f, x, y)
+			for o := 2; o < s; o++ {
+				f = append(f, r.measureOrd(0))
+			}
+			long := float64(1000000 + r.Intn(100000000))
+			short := float64(1 + r.Intn(60))
+			if r.chance(1, 2) {
+				long = -long
+			}
+			if r.chance(1, 2) {
+				x, y = x+long, y+short
+			} else {
+				x, y = x+short, y+long
+			}
+		}
+		e.tally("almost-axis-parallel")
+		emit("ls", geom.NewLineStringFlat(l, f), "()")
+	}
 	for i := 0; i < n; i++ {
 		l := layouts[r.Intn(len(layouts))]
 		s := l.Stride()
